@@ -166,9 +166,12 @@ class Runner:
         return self.attempt(inst, stream, big_inputs=True, expect=c.get("expect"), name=c["name"])
 
     # ------------------------------------------------------------------ x86 kernels
-    def x86(self):
+    def x86(self, deadline=None):
         ck = self.ck
         for kname, src, instrs in CASES.x86_kernels():
+            if deadline is not None and time.time() > deadline:
+                self.st.inc("x86:kernels-skipped-for-time")
+                continue
             mod, err = progen.load_module(src, "c05x86")
             if mod is None:
                 ck.broken_obligation("x86-kernel-rejected-by-front-end:" + kname, err or "")
@@ -392,7 +395,7 @@ def run(ck: common.Check):
         for c in CASES.REPO_TESTS:
             r.fixed(c, "search:repo-tests")
         ck.log("repo tests %.1fs" % (time.time() - t0))
-        r.x86()
+        r.x86(None if ck.thorough else t0 + 150)
         ck.log("x86 %.1fs" % (time.time() - t0))
         r.generated(ck.n(200, 1500), ck.n(min(60, max(12, left())), 700))
         ck.log("generated %.1fs" % (time.time() - t0))
